@@ -17,7 +17,7 @@ from typing import Any, Dict, List, Optional, Tuple
 
 from ..cfg import cfg_of
 from ..flow import Sym, fpaths, attr_effects, allfacts
-from ..model import FuncInfo, attr_chain, norm, walk_no_nested
+from ..model import FuncInfo, attr_chain, norm, walk_no_nested, AnalysisError
 from ..report import Checker
 from .c02 import pipeline_reset_check
 
@@ -27,6 +27,7 @@ def run(ch: Checker) -> None:
     ch.rule('C04.1', 'must-read: HttpParser.buffer (unconsumed bytes after the first request) is read by HttpProtocolHandler on the path that continues the connection', 1)
     ch.rule('C04.2', 'must-read: in HttpProxyPlugin.on_client_data the completed follow-up request\'s host/port/_url is read between completion and upstream.queue()', 1)
     ch.rule('C04.3', 'must-read: in HttpWebServerPlugin.on_client_data the route used for a follow-up request is selected from that request\'s path', 1)
+    ch.rule('C04.10', 'what is handed to the follow-up request / response parsers is the data parameter itself: nothing is trimmed, skipped or rewritten per delivery before parse() sees it', 3)
     ch.rule('C04.4', 'typestate: once the follow-up request parser is complete every normal way out of on_client_data resets it to None (unless the request was a protocol upgrade); '
                      'it is reset only when complete; handle_pipeline_response resets the follow-up response parser exactly when it is complete', 4)
 
@@ -165,6 +166,36 @@ def run(ch: Checker) -> None:
         if other and not declined:
             bad = ('handle_pipeline_response edits the follow-up REQUEST parser (%s) on a path that is not "upgrade offered and answered with something other than 101": its lifetime must end when the request is forwarded, not when some response completes' % other[0], p.describe())
     ch.check(bad is None and n > 0, 'C04.4', hpr, 'response parser reset', 'follow-up response parser reset exactly when complete', bad[0] if bad else '', witness=bad[1] if bad else None)
+
+    # ---------------- C04.10 the follow-up parsers are fed what arrived
+    n10 = 0
+    for fn in prog.all_functions('proxy.http', include_inlined=True):
+        feeds = [c_ for c_ in walk_no_nested(fn.node) if isinstance(c_, ast.Call) and attr_chain(c_.func) in ('self.pipeline_request.parse', 'self.pipeline_response.parse') and c_.args]
+        if not feeds or len(fn.params) < 2:
+            continue
+        g10 = cfg_of(fn, prog, exc_edges=False)
+        verdict10: Dict[int, Tuple[ast.Call, Optional[str]]] = {}
+        for p in fpaths(g10):
+            ch.paths += 1
+            sym10 = Sym(p)
+            for i_, nd_, lab_ in p.executed():
+                if nd_.ast is None or nd_.kind != 'stmt':
+                    continue
+                for c_ in walk_no_nested(nd_.ast):
+                    if any(c_ is f_ for f_ in feeds):
+                        v = sym10.value(c_.args[0], i_)       # type: ignore[attr-defined]
+                        while isinstance(v, ast.Call) and attr_chain(v.func) in ('memoryview', 'bytes') and len(v.args) == 1:
+                            v = v.args[0]
+                        ok_ = isinstance(v, ast.Name) and v.id in fn.params[1:]
+                        prev = verdict10.get(id(c_), (c_, None))[1]
+                        verdict10[id(c_)] = (c_, prev or (None if ok_ else norm(v)[:70]))     # type: ignore[assignment]
+        for c_, why in verdict10.values():
+            n10 += 1
+            ch.check(why is None, 'C04.10', fn, c_, 'the parser is fed the data as it arrived',
+                     'the follow-up parser is fed %s instead of the data that arrived: bytes are dropped or altered per delivery, so whether a later request completes depends on where the client\'s '
+                     'segments happen to be cut (an empty line arriving on its own, a body piece that starts with CRLF)' % why)
+    if n10 == 0:
+        raise AnalysisError('anchor vanished: no self.pipeline_request.parse(...) / self.pipeline_response.parse(...) found')
 
     # ---------------- C04.8/9 (shared)
     ch.import_rules('C07', {'C07.2b': 'C04.8'}, 'the last response on a persistent connection is complete only if the close waits for an empty buffer')
